@@ -298,7 +298,7 @@ PROPS = {
             "the real agent is a derived AgentLaneModel with `#[lifecycle]` handlers run by AgentModel over byte-channel lanes on a single-threaded tokio runtime; lanes are transient (no store)",
         ],
         assumptions=[
-            "programs are acyclic by rank (a lifecycle handler of an item only modifies items of lower rank; suspended handlers stay below the rank of their spawner): termination of cyclic programs is not claimed (the documentation says such programs exhaust the stack)",
+            "programs are acyclic by rank (a lifecycle handler of an item only modifies items of lower rank; suspended handlers stay below the rank of their spawner): termination is proved for such stratified programs (C06_acyclic_programs_terminate); cyclic programs are outside the claim (the documentation says they exhaust the stack)",
             "a failing handler of a lane command is abandoned and the agent carries on (the code logs `Incoming frame was rejected by the item`), whereas docs/event_handler.md says the agent fails: the model follows the code; the property's own failure clause (nothing further of the handler or of those it interrupted runs) holds either way",
             "commands are sent singly or, a third of the time, two to four at once before anything is awaited (then every lane used is synced), so the runtime chooses the order among outstanding commands and completed suspended futures; that order is read off the trace (command values are unique); value lanes, map lanes, effects, get / set / and_then / followed_by / suspend are covered, other lane kinds and downlink lifecycles are not (partial)",
         ],
